@@ -6,12 +6,16 @@ import (
 	"bytes"
 	"fmt"
 	"runtime"
+	"runtime/debug"
 	"sync"
 	"sync/atomic"
 
 	"verif/drv"
 	"verif/m"
 )
+
+// OnWorkerPanic is set by the command: it turns a panic escaping a worker into a reported violation.
+var OnWorkerPanic func(p interface{}, stack string)
 
 // ParallelFor runs f(worker, i) for i in [0,n) on up to GOMAXPROCS workers. setup/teardown run once per worker.
 func ParallelFor(n int, workers int, f func(w, i int)) {
@@ -30,6 +34,16 @@ func ParallelFor(n int, workers int, f func(w, i int)) {
 		wg.Add(1)
 		go func(w int) {
 			defer wg.Done()
+			defer func() {
+				// a panic that escapes here came out of the library through a harness path that is not wrapped by drv.Exec
+				if p := recover(); p != nil {
+					if OnWorkerPanic != nil {
+						OnWorkerPanic(p, string(debug.Stack()))
+					} else {
+						panic(p)
+					}
+				}
+			}()
 			for {
 				i := int(atomic.AddInt64(&next, 1))
 				if i >= n {
